@@ -1050,6 +1050,13 @@ def c12(tr, cx):
         sv = ndspec['servers']
         tend = float(tr.snaps[-1]['t'])
         slots = slot_times(sv, tend)
+        # every slot instant of the declared timetable is a slot event - also one of size 0 (under capacitated pre-emptive slots
+        # it is the instant at which services in progress are cut down to the slot size)
+        got_slots = [float(sn['t']) for sn in tr.snaps if sn['evnode'] == nid and sn['evtype'] == 'slotted_service']
+        due = [s_[0] for s_ in slots if s_[0] < tend - 1e-9]
+        tr.count('C12.timetable_slots', len(due))
+        missing = [b for b in due if not any(abs(b - g) < 1e-9 for g in got_slots)]
+        if missing: tr.v('C12', 'timetable_slot_without_slot_event', (nid, missing[:4], len(due)))
         for k in range(1, len(tr.snaps)):
             a, b = tr.snaps[k - 1]['nodes'][nid], tr.snaps[k]['nodes'][nid]
             t = tr.snaps[k]['t']
